@@ -492,12 +492,15 @@ fn replay_large(v: &Value) -> Result<(), String> {
     }
 }
 
+crate::long_sub!(run_long_history, [24]);
+
 pub fn def() -> PropDef {
     PropDef {
         id: "C10",
         rule: "lists built from a generated pattern of (point with known discrete log: identity, [j]G, pool subgroup point; optionally negated; structured scalar < 2^255) cycled to a generated length n (0, 1, 2, 0..40, every window-selection boundary +-1 up to 1259, 40..700) with per-repetition scalar steps, surplus entries in one list, explicit windows 1..=16 generated and 17..=20 enumerated; expected value [sum k_i a_i mod r]G from one model multiplication; all three entry points (precomp_256 variant for short lists). Non-trivial = n >= 2 with a duplicate, an inverse pair, an identity or a word-straddling / dense scalar; distinct = distinct cases. Exhaustive: find_pippinger_window(n) in 1..=16 for all n <= 2^20 (quick) / 2^23 (thorough) plus powers of two +-1 up to usize::MAX; lists at every selection boundary +-1",
         needs_pairing: false,
         subs: vec![
+            Box::new(crate::engine::EnumSub { name: "long-history", rule: super::longhist::RULE, run: run_long_history, replay: super::longhist::replay, exhaustive: false }),
             Box::new(Sub { name: "g1-lists", rule: "G1 lists through sum_of_products / _pippinger(window) / _precomp_256", quick: 1_200, thorough: 40_000, strategy: || boxed(msm_strategy(0)), check: check_msm_any }),
             Box::new(Sub { name: "g2-lists", rule: "G2 lists, same entry points", quick: 500, thorough: 15_000, strategy: || boxed(msm_strategy(1)), check: check_msm_any }),
             Box::new(Sub { name: "after-rejected-call", rule: "a valid list, then the same list with bit 255 set in one scalar (outside the property's domain; the panic, if any, is caught as a long-lived worker would), then 1..2 valid lists on the same thread, each compared with the model: a rejected call must not leave anything behind", quick: 200, thorough: 6_000, strategy: || boxed(after_rejected_strategy()), check: check_after_rejected }),
